@@ -218,6 +218,56 @@ pub fn dispatch(v: &Value) -> Value {
             }
             if ts { run!(TypescriptBackend) } else { run!(RasnBackend) }
         }
+        "compile_many" => {
+            // C11: preceding compilations in this process, then the jobs spread over `threads` threads running concurrently
+            use rasn_compiler::prelude::*;
+            fn one(sources: &[String], ts: bool) -> Value {
+                macro_rules! go {
+                    ($b:ty) => {{
+                        let mut it = sources.iter();
+                        let mut c = Compiler::<$b, _>::new().add_asn_literal(it.next().cloned().unwrap_or_default());
+                        for s in it {
+                            c = c.add_asn_literal(s.clone());
+                        }
+                        match c.compile_to_string() {
+                            Ok(r) => {
+                                let mut w: Vec<String> = r.warnings.iter().map(|x| x.to_string()).collect();
+                                w.sort();
+                                json!({"ok": true, "generated": r.generated, "warnings": w})
+                            }
+                            Err(e) => json!({"ok": false, "err": e.to_string()}),
+                        }
+                    }};
+                }
+                if ts { go!(TypescriptBackend) } else { go!(RasnBackend) }
+            }
+            let parse = |x: &Value| -> (Vec<String>, bool) {
+                (x["sources"].as_array().map(|a| a.iter().filter_map(|s| s.as_str().map(String::from)).collect()).unwrap_or_default(),
+                 x["backend"].as_str() == Some("ts"))
+            };
+            for w in v["warmup"].as_array().cloned().unwrap_or_default().iter() {
+                let (src, ts) = parse(w);
+                let _ = std::panic::catch_unwind(|| one(&src, ts));
+            }
+            let jobs: Vec<(Vec<String>, bool)> = v["jobs"].as_array().cloned().unwrap_or_default().iter().map(parse).collect();
+            let threads = v["threads"].as_u64().unwrap_or(1).max(1) as usize;
+            let results = std::sync::Mutex::new(vec![Value::Null; jobs.len()]);
+            let next = std::sync::atomic::AtomicUsize::new(0);
+            std::thread::scope(|sc| {
+                for _ in 0..threads {
+                    sc.spawn(|| loop {
+                        let i = next.fetch_add(1, std::sync::atomic::Ordering::SeqCst);
+                        if i >= jobs.len() {
+                            break;
+                        }
+                        let (src, ts) = &jobs[i];
+                        let r = std::panic::catch_unwind(|| one(src, *ts)).unwrap_or_else(|_| json!({"panic": true}));
+                        results.lock().unwrap()[i] = r;
+                    });
+                }
+            });
+            json!({"results": results.into_inner().unwrap()})
+        }
         "charset" => {
             let st = crate::ir::string_type(v.get("cs")).unwrap();
             let cs: Vec<u32> = hk::character_set(st).into_iter().map(|c| c as u32).collect();
